@@ -557,3 +557,445 @@ Proof.
   destruct prune_consts_ok as (_ & _ & Hw). rewrite Hw in Hin.
   now apply (table_inv_remembers _ _ _ Hinv Hin).
 Qed.
+
+(* ==================================================================================== *)
+(* the trigger language and matcher_spec *)
+
+Definition opt_field (o : option (list N)) : list N :=
+  match o with Some d => ch_colon :: d | None => [] end.
+
+(* the text of a trigger: marker, mode, version, optional id, optional port *)
+Definition trig_text (mode : N) (a b c : list N) (id port : option (list N)) : list N :=
+  marker ++ mode :: ch_colon :: vtext a b c ++ opt_field id ++ opt_field port.
+
+Definition opt_dstr (o : option (list N)) : Prop := match o with Some d => dstr d | None => True end.
+
+(* the language of trzszRegexp, with the submatches it reports *)
+Inductive trigger_text : tmatch -> list N -> Prop :=
+| TT : forall mode a b c id port, is_mode mode = true -> dstr a -> dstr b -> dstr c ->
+    opt_dstr id -> opt_dstr port -> (id = None -> port = None) ->
+    trigger_text {| m_mode := mode; m_ver := vtext a b c; m_id := id; m_port := port |}
+                 (trig_text mode a b c id port).
+
+(* "no ':' followed by a digit": nothing an optional (:\d+) group could still take *)
+Definition ncd (l : list N) : Prop := forall r, l = ch_colon :: r -> ~ hnd r -> False.
+
+(* greedy matching ends where no field could be extended or added *)
+Definition greedy_end (m : tmatch) (rest : list N) : Prop :=
+  hnd rest /\ (m_port m = None -> ncd rest).
+
+Lemma opt_colon_digits_some : forall d t, dstr d -> hnd t -> opt_colon_digits (ch_colon :: d ++ t) = (Some d, t).
+Proof.
+  intros d t [H1 H2] Ht. unfold opt_colon_digits. cbn [strip_byte]. rewrite N.eqb_refl.
+  now rewrite digits1_intro.
+Qed.
+
+Lemma opt_colon_digits_none : forall l, ncd l -> opt_colon_digits l = (None, l).
+Proof.
+  intros l H. unfold opt_colon_digits. destruct (strip_byte ch_colon l) as [r|] eqn:E; [|reflexivity].
+  apply strip_byte_some in E. destruct (digits1 r) as [[d t]|] eqn:E2; [|reflexivity].
+  exfalso. apply (H r E). apply digits1_spec in E2 as (-> & Hne & Hd & _).
+  destruct d as [|x d]; [congruence|]. cbn [app hnd]. cbn [all_digits forallb] in Hd.
+  apply andb_true_iff in Hd as [Hx _]. now rewrite Hx.
+Qed.
+
+Lemma opt_colon_digits_spec : forall l g t, opt_colon_digits l = (g, t) ->
+  l = opt_field g ++ t /\ opt_dstr g /\ (match g with Some _ => hnd t | None => ncd t end).
+Proof.
+  intros l g t H. unfold opt_colon_digits in H.
+  destruct (strip_byte ch_colon l) as [r|] eqn:E.
+  - apply strip_byte_some in E as ->. destruct (digits1 r) as [[d t']|] eqn:E2.
+    + injection H as <- <-. apply digits1_spec in E2 as (-> & Hne & Hd & Ht). cbn [opt_field app opt_dstr]. repeat split; assumption.
+    + injection H as <- <-. cbn [opt_field app opt_dstr]. repeat split. intros r' [= <-] Hn.
+      apply Hn. now apply digits1_none_hnd.
+  - injection H as <- <-. cbn [opt_field app opt_dstr]. repeat split. intros r' -> _.
+    cbn [strip_byte] in E. now rewrite N.eqb_refl in E.
+Qed.
+
+Lemma hnd_opt_field : forall g t, hnd t -> hnd (opt_field g ++ t).
+Proof. intros [d|] t H; [reflexivity | exact H]. Qed.
+
+Lemma trzsz_at_intro : forall m txt rest, trigger_text m txt -> greedy_end m rest ->
+  trzsz_at (txt ++ rest) = Some (m, rest).
+Proof.
+  intros m txt rest Ht [Hr Hn]. destruct Ht as [mode a b c id port Hm Ha Hb Hc Hid Hport Hip].
+  cbn [m_port] in Hn. unfold trzsz_at, trig_text. rewrite <- app_assoc.
+  rewrite (proj2 (strip_prefix_some marker _ _) eq_refl). cbn [app]. rewrite Hm.
+  cbn [strip_byte]. rewrite N.eqb_refl.
+  replace ((vtext a b c ++ opt_field id ++ opt_field port) ++ rest)
+    with (vtext a b c ++ opt_field id ++ opt_field port ++ rest) by now rewrite !app_assoc.
+  rewrite match_version_intro; try assumption.
+  2:{ apply hnd_opt_field. apply hnd_opt_field. exact Hr. }
+  destruct id as [i|]; cbn [opt_field].
+  - cbn [opt_dstr] in Hid. cbn [app].
+    rewrite opt_colon_digits_some; [|assumption|apply hnd_opt_field; exact Hr].
+    destruct port as [p|]; cbn [opt_field].
+    + cbn [app]. now rewrite opt_colon_digits_some.
+    + cbn [app]. now rewrite opt_colon_digits_none by auto.
+  - rewrite (Hip eq_refl) in *. cbn [opt_field app]. now rewrite !opt_colon_digits_none by auto.
+Qed.
+
+Lemma trzsz_at_spec : forall l m rest, trzsz_at l = Some (m, rest) ->
+  exists txt, trigger_text m txt /\ l = txt ++ rest /\ greedy_end m rest.
+Proof.
+  intros l m rest H. unfold trzsz_at in H.
+  destruct (strip_prefix marker l) as [l1|] eqn:E1; [|discriminate]. apply strip_prefix_some in E1 as ->.
+  destruct l1 as [|mode l2]; [discriminate|]. destruct (is_mode mode) eqn:Em; [|discriminate].
+  destruct (strip_byte ch_colon l2) as [l3|] eqn:E3; [|discriminate]. apply strip_byte_some in E3 as ->.
+  destruct (match_version l3) as [[v l4]|] eqn:E4; [|discriminate].
+  apply match_version_spec in E4 as (a & b & c & -> & -> & Ha & Hb & Hc & Hr4).
+  destruct (opt_colon_digits l4) as [g3 l5] eqn:E5. destruct (opt_colon_digits l5) as [g4 l6] eqn:E6.
+  injection H as <- <-.
+  apply opt_colon_digits_spec in E5 as (-> & H3 & H3'). apply opt_colon_digits_spec in E6 as (-> & H4 & H4').
+  exists (trig_text mode a b c g3 g4). split; [|split].
+  - constructor; try assumption. intros ->. destruct g4 as [p|]; [exfalso|reflexivity].
+    cbn [opt_field app opt_dstr] in *. apply (H3' _ eq_refl). destruct H4 as [Hne Hd].
+    destruct p as [|x p]; [congruence|]. cbn [app hnd]. cbn [all_digits forallb] in Hd.
+    apply andb_true_iff in Hd as [Hx _]. now rewrite Hx.
+  - unfold trig_text. rewrite <- !app_assoc. cbn [app]. now rewrite <- !app_assoc.
+  - unfold greedy_end. cbn [m_port]. split.
+    + destruct g4 as [p|]; [exact H4'|]. destruct g3 as [i|]; [exact H3'|].
+      exact Hr4.
+    + intros ->. exact H4'.
+Qed.
+
+(* the anchored matcher accepts exactly the trigger language, reports its fields, and is
+   greedy; FindSubmatch is the leftmost anchored match *)
+Lemma matcher_spec : forall l m rest,
+  trzsz_at l = Some (m, rest) <-> exists txt, trigger_text m txt /\ l = txt ++ rest /\ greedy_end m rest.
+Proof.
+  intros l m rest. split; [apply trzsz_at_spec|]. intros (txt & Ht & -> & Hg). now apply trzsz_at_intro.
+Qed.
+
+Lemma find_trzsz_head : forall l m r, trzsz_at l = Some (m, r) -> find_trzsz l = Some m.
+Proof. intros l m r H. destruct l; cbn [find_trzsz]; now rewrite H. Qed.
+
+Lemma find_trzsz_spec : forall l m, find_trzsz l = Some m <->
+  exists i rest, trzsz_at (skipn i l) = Some (m, rest) /\ forall j, (j < i)%nat -> trzsz_at (skipn j l) = None.
+Proof.
+  intros l m. split.
+  - induction l as [|x l IH]; intro H.
+    + cbn [find_trzsz] in H. destruct (trzsz_at []) as [[m' r]|] eqn:E; [|discriminate]. injection H as <-.
+      exists O, r. split; [exact E | intros j Hj; lia].
+    + cbn [find_trzsz] in H. destruct (trzsz_at (x :: l)) as [[m' r]|] eqn:E.
+      * injection H as <-. exists O, r. split; [exact E | intros j Hj; lia].
+      * destruct (IH H) as (i & r & Hi & Hlt). exists (S i), r. split; [exact Hi|].
+        intros [|j] Hj; [exact E | apply Hlt; lia].
+  - intros (i & r & Hi & Hlt). revert l Hi Hlt. induction i as [|i IH]; intros l Hi Hlt.
+    + eapply find_trzsz_head. exact Hi.
+    + destruct l as [|x l]; [rewrite skipn_nil in Hi; pose proof (Hlt O ltac:(lia)) as H0; cbn [skipn] in H0; congruence|].
+      cbn [find_trzsz]. pose proof (Hlt O ltac:(lia)) as H0. cbn [skipn] in H0. rewrite H0.
+      apply IH; [exact Hi|]. intros j Hj. apply (Hlt (S j)). lia.
+Qed.
+
+(* ==================================================================================== *)
+(* parseTrzszVersion on a version text *)
+
+Lemma digit_not_dot : forall x, is_digit x = true -> (x =? ch_dot) = false.
+Proof.
+  intros x H. unfold is_digit in H. apply andb_true_iff in H as [H1 H2]. apply N.leb_le in H1.
+  apply N.eqb_neq. unfold ch_dot. lia.
+Qed.
+
+Lemma split_on_digits_end : forall c, all_digits c = true -> split_on ch_dot c = [c].
+Proof.
+  induction c as [|x c IH]; intro H; [reflexivity|]. cbn [all_digits forallb] in H.
+  apply andb_true_iff in H as [Hx Hc]. cbn [split_on]. rewrite (digit_not_dot x Hx). now rewrite (IH Hc).
+Qed.
+
+Lemma split_on_digits_app : forall a r, all_digits a = true ->
+  split_on ch_dot (a ++ ch_dot :: r) = a :: split_on ch_dot r.
+Proof.
+  induction a as [|x a IH]; intros r H.
+  - cbn [app split_on]. now rewrite N.eqb_refl.
+  - cbn [all_digits forallb] in H. apply andb_true_iff in H as [Hx Ha]. cbn [app split_on].
+    rewrite (digit_not_dot x Hx). now rewrite (IH r Ha).
+Qed.
+
+Definition fits (d : list N) : bool := dec_value d <? 2 ^ Consts.det_version_bits.
+
+Lemma parse_uint_dstr : forall d, dstr d -> parse_uint Consts.det_version_bits d = if fits d then Some (dec_value d) else None.
+Proof. intros d [Hne Hd]. unfold parse_uint, fits. rewrite Hd. destruct d; [congruence | reflexivity]. Qed.
+
+Lemma parse_version_vtext : forall a b c, dstr a -> dstr b -> dstr c ->
+  parse_version (vtext a b c) =
+  if fits a && fits b && fits c then Some (dec_value a, dec_value b, dec_value c) else None.
+Proof.
+  intros a b c Ha Hb Hc. unfold parse_version, vtext. change version_sep with ch_dot.
+  rewrite split_on_digits_app by apply Ha. rewrite split_on_digits_app by apply Hb.
+  rewrite split_on_digits_end by apply Hc.
+  rewrite !parse_uint_dstr by assumption. destruct (fits a), (fits b), (fits c); reflexivity.
+Qed.
+
+(* ==================================================================================== *)
+(* C06_fires *)
+
+Definition port_value (port : option (list N)) : N :=
+  match port with
+  | Some p => let v := dec_value p in if v <=? int_max then v else 0
+  | None => 0
+  end.
+Definition id_value (id : option (list N)) : list N := match id with Some i => i | None => [] end.
+
+Lemma last_index_app_pre : forall p pre l i, last_index_of p l = Some i ->
+  last_index_of p (pre ++ l) = Some (length pre + i)%nat.
+Proof.
+  intros p; induction pre as [|x pre IH]; intros l i H; [exact H|]. cbn [app last_index_of length Nat.add].
+  now rewrite (IH _ _ H).
+Qed.
+
+Lemma skipn_app_exact : forall {A} (a b : list A), skipn (length a) (a ++ b) = b.
+Proof. intros A a b. rewrite skipn_app, skipn_all, Nat.sub_diag. reflexivity. Qed.
+
+Lemma fires_core : forall w d tunnel buf pre m txt tail ver,
+  let out := if d_relay d && d_tmux d then rewrite_trigger buf else buf in
+  (nlen buf <? Consts.det_min_len) = false ->
+  last_index_of marker buf <> None ->
+  out = pre ++ txt ++ tail ->
+  trigger_text m txt -> greedy_end m tail ->
+  last_index_of marker (txt ++ tail) = Some O ->
+  (find_tmux out = None \/ (tunnel = true /\ m_port m <> None)) ->
+  finished (skipn (N.to_nat Consts.det_finished_offset) (txt ++ tail)) = false ->
+  parse_version (m_ver m) = Some ver ->
+  (dedup_eligible w (id_value (m_id m)) = true -> map_find (d_map d) (id_value (m_id m)) = None) ->
+  detect w d tunnel buf =
+    (if d_relay d then add_relay_suffix out (length pre)
+     else replace_all Consts.det_client_old Consts.det_client_new out,
+     Some {| t_mode := m_mode m; t_version := ver; t_id := id_value (m_id m);
+             t_win := win_server (id_value (m_id m)); t_port := port_value (m_port m);
+             t_prefix := match find_tmux out with Some p => p | None => [] end |},
+     set_map d (snd (is_repeated w (d_map d) (id_value (m_id m))))).
+Proof.
+  intros w d tunnel buf pre m txt tail ver out Hlen Hmk Hout Htxt Hgr Hlast Htm Hfin Hver Hfresh.
+  unfold detect. rewrite Hlen. destruct (last_index_of marker buf) as [i0|]; [clear Hmk i0|congruence].
+  fold out. clearbody out. subst out.
+  rewrite (last_index_app_pre _ pre _ _ Hlast). rewrite Nat.add_0_r, skipn_app_exact.
+  rewrite (find_trzsz_head _ _ _ (trzsz_at_intro _ _ _ Htxt Hgr)).
+  replace (negb (is_none (find_tmux (pre ++ txt ++ tail))) && (negb tunnel || is_none (m_port m))) with false.
+  2:{ destruct Htm as [->|[-> Hp]]; [reflexivity|]. destruct (m_port m); [|congruence]. cbn. now rewrite andb_false_r. }
+  rewrite Hfin, andb_false_r, Hver.
+  fold (id_value (m_id m)). unfold is_repeated.
+  destruct (dedup_eligible w (id_value (m_id m))) eqn:El.
+  - rewrite (Hfresh eq_refl). cbn [snd]. unfold port_value. reflexivity.
+  - cbn [snd]. unfold port_value. reflexivity.
+Qed.
+
+Lemma dstr_length : forall d, dstr d -> (1 <= length d)%nat.
+Proof. intros [|x d] [H _]; [congruence | cbn; lia]. Qed.
+
+Lemma trigger_text_length : forall m txt, trigger_text m txt -> (24 <= length txt)%nat.
+Proof.
+  intros m txt H. destruct H as [mode a b c id port _ Ha Hb Hc _ _ _]. unfold trig_text, vtext.
+  apply dstr_length in Ha, Hb, Hc. rewrite app_length. change (length marker) with 17%nat. cbn [length].
+  rewrite !app_length. cbn [length]. rewrite !app_length. cbn [length]. lia.
+Qed.
+
+Lemma trigger_text_marker : forall m txt, trigger_text m txt -> has_prefix marker txt = true.
+Proof. intros m txt H. destruct H. unfold trig_text. apply has_prefix_app. Qed.
+
+(* the statement for the three flag combinations in which the buffer is not re-tagged *)
+Lemma fires_plain : forall w d tunnel pre m txt tail ver,
+  d_relay d && d_tmux d = false ->
+  trigger_text m txt -> greedy_end m tail ->
+  last_index_of marker (txt ++ tail) = Some O ->
+  (find_tmux (pre ++ txt ++ tail) = None \/ (tunnel = true /\ m_port m <> None)) ->
+  finished (skipn (N.to_nat Consts.det_finished_offset) (txt ++ tail)) = false ->
+  parse_version (m_ver m) = Some ver ->
+  (dedup_eligible w (id_value (m_id m)) = true -> map_find (d_map d) (id_value (m_id m)) = None) ->
+  detect w d tunnel (pre ++ txt ++ tail) =
+    (if d_relay d then add_relay_suffix (pre ++ txt ++ tail) (length pre)
+     else replace_all Consts.det_client_old Consts.det_client_new (pre ++ txt ++ tail),
+     Some {| t_mode := m_mode m; t_version := ver; t_id := id_value (m_id m);
+             t_win := win_server (id_value (m_id m)); t_port := port_value (m_port m);
+             t_prefix := match find_tmux (pre ++ txt ++ tail) with Some p => p | None => [] end |},
+     set_map d (snd (is_repeated w (d_map d) (id_value (m_id m))))).
+Proof.
+  intros w d tunnel pre m txt tail ver Hrt Htxt Hgr Hlast Htm Hfin Hver Hfresh.
+  pose proof (fires_core w d tunnel (pre ++ txt ++ tail) pre m txt tail ver) as H. cbv zeta in H.
+  rewrite Hrt in H. apply H; try assumption; [|now rewrite (last_index_app_pre _ pre _ _ Hlast)|reflexivity].
+  apply N.ltb_ge. rewrite min_len_ok. unfold nlen. rewrite !app_length.
+  pose proof (trigger_text_length _ _ Htxt). lia.
+Qed.
+
+(* ==================================================================================== *)
+(* C06_finished, C06_ctrl_mode, bad versions *)
+
+Lemma finished_nil : finished [] = false. Proof. reflexivity. Qed.
+
+Lemma finished_guard : forall s, finished (skipn (N.to_nat Consts.det_finished_offset) s) = true ->
+  (Consts.det_finished_offset <? nlen s) = true.
+Proof.
+  intros s H. apply N.ltb_lt. unfold nlen. destruct (Nat.le_gt_cases (length s) (N.to_nat Consts.det_finished_offset)) as [Hle|Hgt]; [|lia].
+  rewrite skipn_all2 in H by exact Hle. rewrite finished_nil in H. discriminate.
+Qed.
+
+(* scroll-back of a finished transfer: a finished-transfer word at offset >= 40 after the
+   last marker => no trigger, whatever else the buffer holds *)
+Lemma finished_none : forall w d tunnel buf idx,
+  let out := if d_relay d && d_tmux d then rewrite_trigger buf else buf in
+  last_index_of marker out = Some idx ->
+  finished (skipn (N.to_nat Consts.det_finished_offset) (skipn idx out)) = true ->
+  detect w d tunnel buf = (out, None, d).
+Proof.
+  intros w d tunnel buf idx out Hidx Hfin.
+  assert (Hn : snd (fst (detect w d tunnel buf)) = None).
+  { unfold detect. destruct (nlen buf <? Consts.det_min_len); [reflexivity|].
+    destruct (last_index_of marker buf); [|reflexivity]. fold out. rewrite Hidx.
+    destruct (find_trzsz (skipn idx out)); [|reflexivity].
+    destruct (negb (is_none (find_tmux out)) && _); [reflexivity|].
+    now rewrite Hfin, (finished_guard _ Hfin). }
+  destruct (detect w d tunnel buf) as [[o t] d'] eqn:E. cbn [fst snd] in Hn. subst t.
+  destruct (silent _ _ _ _ _ _ E) as [-> ->]. reflexivity.
+Qed.
+
+(* tmux control-mode framing in front of a marker and no tunnel => no trigger *)
+Lemma ctrl_mode_none : forall w d buf p,
+  let out := if d_relay d && d_tmux d then rewrite_trigger buf else buf in
+  find_tmux out = Some p -> detect w d false buf = (out, None, d).
+Proof.
+  intros w d buf p out Htm.
+  assert (Hn : snd (fst (detect w d false buf)) = None).
+  { unfold detect. destruct (nlen buf <? Consts.det_min_len); [reflexivity|].
+    destruct (last_index_of marker buf); [|reflexivity]. fold out.
+    destruct (last_index_of marker out) as [idx|]; [|reflexivity].
+    destruct (find_trzsz (skipn idx out)); [|reflexivity]. now rewrite Htm. }
+  destruct (detect w d false buf) as [[o t] d'] eqn:E. cbn [fst snd] in Hn. subst t.
+  destruct (silent _ _ _ _ _ _ E) as [-> ->]. reflexivity.
+Qed.
+
+(* the shape premises shared by the negative results on a complete trigger *)
+Lemma shaped_none : forall w d tunnel buf pre m txt tail,
+  let out := if d_relay d && d_tmux d then rewrite_trigger buf else buf in
+  out = pre ++ txt ++ tail -> trigger_text m txt -> greedy_end m tail ->
+  last_index_of marker (txt ++ tail) = Some O ->
+  (find_tmux out <> None /\ (tunnel = false \/ m_port m = None)) \/ parse_version (m_ver m) = None \/
+  (dedup_eligible w (id_value (m_id m)) = true /\ map_find (d_map d) (id_value (m_id m)) <> None) ->
+  detect w d tunnel buf = (out, None, d).
+Proof.
+  intros w d tunnel buf pre m txt tail out Hout Htxt Hgr Hlast Hwhy.
+  assert (Hn : snd (fst (detect w d tunnel buf)) = None).
+  { unfold detect. destruct (nlen buf <? Consts.det_min_len); [reflexivity|].
+    destruct (last_index_of marker buf); [|reflexivity]. fold out. clearbody out. subst out.
+    rewrite (last_index_app_pre _ pre _ _ Hlast). rewrite Nat.add_0_r, skipn_app_exact.
+    rewrite (find_trzsz_head _ _ _ (trzsz_at_intro _ _ _ Htxt Hgr)).
+    destruct Hwhy as [[Htm Hp]|[Hv|[He Hf]]].
+    - destruct (find_tmux (pre ++ txt ++ tail)); [|congruence]. cbn [is_none negb andb].
+      destruct Hp as [Hp | Hp]; rewrite Hp; [reflexivity | cbn; now rewrite orb_true_r].
+    - destruct (negb _ && _); [reflexivity|]. destruct (_ && _); [reflexivity|]. now rewrite Hv.
+    - destruct (negb _ && _); [reflexivity|]. destruct (_ && _); [reflexivity|].
+      destruct (parse_version (m_ver m)); [|reflexivity]. fold (id_value (m_id m)). unfold is_repeated. rewrite He.
+      destruct (map_find (d_map d) (id_value (m_id m))); [reflexivity | congruence]. }
+  destruct (detect w d tunnel buf) as [[o t] d'] eqn:E. cbn [fst snd] in Hn. subst t.
+  destruct (silent _ _ _ _ _ _ E) as [-> ->]. reflexivity.
+Qed.
+
+(* ==================================================================================== *)
+(* addRelaySuffix on a complete trigger, and C06_relay_forward *)
+
+Lemma span_relay_app : forall s tail, forallb relay_scan_char s = true ->
+  span_relay (s ++ tail) = (s ++ fst (span_relay tail), snd (span_relay tail)).
+Proof.
+  induction s as [|x s IH]; intros tail H.
+  - cbn [app]. now destruct (span_relay tail).
+  - cbn [forallb] in H. apply andb_true_iff in H as [Hx Hs]. cbn [app span_relay]. rewrite Hx.
+    rewrite (IH tail Hs). reflexivity.
+Qed.
+
+Lemma digits_scan : forall d, all_digits d = true -> forallb relay_scan_char d = true.
+Proof.
+  induction d as [|x d IH]; intro H; [reflexivity|]. cbn [all_digits forallb] in H |- *.
+  apply andb_true_iff in H as [Hx Hd]. rewrite (IH Hd), andb_true_r. rewrite relay_scan_ok, Hx. now rewrite orb_true_r.
+Qed.
+
+Lemma opt_field_scan : forall o, opt_dstr o -> forallb relay_scan_char (opt_field o) = true.
+Proof. intros [d|] H; [|reflexivity]. cbn [opt_field forallb]. rewrite (digits_scan d (proj2 H)). reflexivity. Qed.
+
+Lemma add_relay_suffix_shape : forall pre m txt tail, trigger_text m txt ->
+  add_relay_suffix (pre ++ txt ++ tail) (length pre) =
+  pre ++ txt ++ fst (span_relay tail) ++ Consts.det_relay_suffix ++ snd (span_relay tail).
+Proof.
+  intros pre m txt tail H. pose proof (trigger_text_length _ _ H) as Hlen.
+  destruct H as [mode a b c id port _ Ha Hb Hc Hid Hport _].
+  set (V := vtext a b c ++ opt_field id ++ opt_field port).
+  assert (Htxt : trig_text mode a b c id port = (marker ++ [mode; ch_colon]) ++ V).
+  { unfold trig_text, V. now rewrite <- app_assoc. }
+  assert (HV : forallb relay_scan_char V = true).
+  { unfold V, vtext. repeat (rewrite forallb_app || cbn [forallb]).
+    rewrite (digits_scan a (proj2 Ha)), (digits_scan b (proj2 Hb)), (digits_scan c (proj2 Hc)).
+    rewrite (opt_field_scan id Hid), (opt_field_scan port Hport). reflexivity. }
+  assert (HVne : V <> []).
+  { unfold V, vtext. destruct a; [destruct Ha; congruence | discriminate]. }
+  destruct V as [|v V']; [congruence|]. clear HVne.
+  rewrite Htxt in *. unfold add_relay_suffix. change (N.to_nat Consts.det_relay_offset) with 20%nat.
+  destruct (Nat.leb_spec (length (pre ++ ((marker ++ [mode; ch_colon]) ++ v :: V') ++ tail)) (length pre + 20)) as [Hbad|_].
+  { rewrite !app_length in Hbad. rewrite !app_length in Hlen. lia. }
+  assert (Hcut : pre ++ ((marker ++ [mode; ch_colon]) ++ v :: V') ++ tail
+                 = (pre ++ (marker ++ [mode; ch_colon]) ++ [v]) ++ (V' ++ tail)).
+  { rewrite <- !app_assoc. cbn [app]. rewrite <- ?app_assoc. reflexivity. }
+  assert (Hl : (length pre + 20)%nat = length (pre ++ (marker ++ [mode; ch_colon]) ++ [v])).
+  { rewrite !app_length. reflexivity. }
+  rewrite Hcut, Hl, skipn_app_exact, firstn_app, firstn_all, Nat.sub_diag. cbn [firstn]. rewrite app_nil_r.
+  cbn [forallb] in HV. apply andb_true_iff in HV as [_ HV].
+  rewrite (span_relay_app V' tail HV). rewrite <- !app_assoc. reflexivity.
+Qed.
+
+Lemma span_relay_spec : forall l, l = fst (span_relay l) ++ snd (span_relay l) /\
+  match snd (span_relay l) with x :: _ => relay_scan_char x = false | [] => True end.
+Proof.
+  induction l as [|x l [IH1 IH2]]; [now split|]. cbn [span_relay]. destruct (relay_scan_char x) eqn:E.
+  - destruct (span_relay l) as [a b]. cbn [fst snd] in *. split; [now rewrite IH1 at 1 | exact IH2].
+  - cbn [fst snd app]. now split.
+Qed.
+
+(* a relay marks the trigger behind its last field; the fields stay greedy-terminated *)
+Lemma greedy_end_relay : forall m tail, greedy_end m tail ->
+  greedy_end m (fst (span_relay tail) ++ Consts.det_relay_suffix ++ snd (span_relay tail)).
+Proof.
+  intros m tail [H1 H2]. destruct (span_relay_spec tail) as [Hs _].
+  destruct (fst (span_relay tail)) as [|x e] eqn:E.
+  - split; [reflexivity|]. intros _ r Hr. discriminate Hr.
+  - rewrite Hs in H1, H2. split.
+    + exact H1.
+    + intros Hp r Hr Hn. cbn [app] in Hr. injection Hr as -> <-. apply (H2 Hp (e ++ snd (span_relay tail)) eq_refl).
+      intro Hh. apply Hn. destruct e as [|y e]; [|exact Hh]. cbn [app]. reflexivity.
+Qed.
+
+(* C06_relay_forward, proved part: for a complete trigger in a buffer (shape premises as in
+   C06_fires), what a relay forwards is pre ++ trigger ++ e ++ "#R" ++ r, and a fresh client
+   detector fed with it returns the SAME trigger (ids already re-tagged by the relay),
+   provided the forwarded tail still satisfies the three tail premises.  (They do not
+   follow from the premises on the original tail: see relay_forward_refuted.) *)
+Lemma relay_forward_partial : forall w d tunnel buf pre m txt tail ver w2 tmux2,
+  let out := if d_relay d && d_tmux d then rewrite_trigger buf else buf in
+  let tail' := fst (span_relay tail) ++ Consts.det_relay_suffix ++ snd (span_relay tail) in
+  d_relay d = true ->
+  (nlen buf <? Consts.det_min_len) = false -> last_index_of marker buf <> None ->
+  out = pre ++ txt ++ tail -> trigger_text m txt -> greedy_end m tail ->
+  last_index_of marker (txt ++ tail) = Some O ->
+  (find_tmux out = None \/ (tunnel = true /\ m_port m <> None)) ->
+  finished (skipn (N.to_nat Consts.det_finished_offset) (txt ++ tail)) = false ->
+  parse_version (m_ver m) = Some ver ->
+  (dedup_eligible w (id_value (m_id m)) = true -> map_find (d_map d) (id_value (m_id m)) = None) ->
+  (* premises on the forwarded bytes *)
+  last_index_of marker (txt ++ tail') = Some O ->
+  find_tmux (pre ++ txt ++ tail') = find_tmux out ->
+  finished (skipn (N.to_nat Consts.det_finished_offset) (txt ++ tail')) = false ->
+  exists t d' out2 d2,
+    detect w d tunnel buf = (pre ++ txt ++ tail', Some t, d') /\
+    contains Consts.det_relay_suffix (pre ++ txt ++ tail') = true /\
+    detect w2 (new_det false tmux2) tunnel (pre ++ txt ++ tail') = (out2, Some t, d2).
+Proof.
+  intros w d tunnel buf pre m txt tail ver w2 tmux2 out tail' Hr Hlen Hmk Hout Htxt Hgr Hlast Htm Hfin Hver Hfresh
+         Hlast' Htm' Hfin'.
+  pose proof (fires_core w d tunnel buf pre m txt tail ver Hlen Hmk Hout Htxt Hgr Hlast Htm Hfin Hver Hfresh) as H1.
+  fold out in H1. rewrite Hr in H1. rewrite Hout in H1 at 1. rewrite (add_relay_suffix_shape pre m txt tail Htxt) in H1.
+  fold tail' in H1.
+  pose proof (fires_plain w2 (new_det false tmux2) tunnel pre m txt tail' ver eq_refl Htxt (greedy_end_relay _ _ Hgr) Hlast') as H2.
+  rewrite Htm' in H2. specialize (H2 Htm Hfin' Hver (fun _ => eq_refl)).
+  do 4 eexists. split; [exact H1|]. split; [|exact H2].
+  apply contains_true. exists (length (pre ++ txt ++ fst (span_relay tail))).
+  unfold tail'. replace (pre ++ txt ++ fst (span_relay tail) ++ Consts.det_relay_suffix ++ snd (span_relay tail))
+    with ((pre ++ txt ++ fst (span_relay tail)) ++ Consts.det_relay_suffix ++ snd (span_relay tail))
+    by now rewrite <- !app_assoc.
+  rewrite skipn_app_exact. apply has_prefix_app.
+Qed.
